@@ -597,6 +597,6 @@ func init() {
 		Level:       "other",
 		Explanation: "Structural necessary conditions of the documented scheduling order: the operation comparator's full decision table equals the lexicographic policy; isPreferred's table over (score order, tie-breaker) and the side that receives the priority penalty; the child heap's tie-break; per-level stickiness cursors are actually consulted; direct operations before children; executing-count changes reach every ancestor and re-sort the parent heap; queueing only when no idle worker exists up to the root. The numeric score and fairness over histories are not decided.",
 		Assumptions: []string{"floating-point score values are opaque: only which operand is penalised and how the two scores are compared is decided"},
-		Rules:       []RuleFunc{c04Less, c04Pref, c04Levels, c04Order, c04Walk, c04Direct, c05Wake, schedPropagationLoops, schedHeapMembership, schedSubsliceIndex, schedHeapIndex, schedFixAfterUpdate, schedHeapPopResets},
+		Rules:       []RuleFunc{c04Less, c04Pref, c04Levels, c04Order, c04Walk, c04Direct, c05Wake, schedPropagationLoops, schedHeapMembership, schedSubsliceIndex, schedHeapIndex, schedFixAfterUpdate, schedHeapPopResets, c04StartedPerLevel},
 	})
 }
